@@ -1209,19 +1209,10 @@ impl<T: El> MapWorld<T> {
         let code = if op.k == OpK::RawChain { op.arg >> 2 } else { op.arg };
         chain::decode(code)
     }
-    fn chain_removes(op: Op) -> bool {
-        use chain::*;
-        Self::chain_methods(op).iter().any(|&m| matches!(m, O_REMOVE | O_REMOVE_ENTRY | O_REPLACE_WITH_NONE | E_AND_REPLACE_NONE | RO_REMOVE | RO_REMOVE_ENTRY | RO_REPLACE_WITH_NONE | RE_AND_REPLACE_NONE))
-    }
     fn chain_has_replace_none(op: Op) -> bool {
         use chain::*;
         Self::chain_methods(op).iter().any(|&m| matches!(m, O_REPLACE_WITH_NONE | E_AND_REPLACE_NONE | RO_REPLACE_WITH_NONE | RE_AND_REPLACE_NONE))
     }
-    fn chain_inserts(op: Op) -> bool {
-        use chain::*;
-        Self::chain_methods(op).iter().any(|&m| matches!(m, E_INSERT | E_OR_INSERT | E_OR_INSERT_WITH | E_OR_INSERT_WITH_KEY | E_OR_DEFAULT | V_INSERT | RE_INSERT | RE_OR_INSERT | RE_OR_INSERT_WITH | RV_INSERT | RV_INSERT_HASHED | RV_INSERT_WITH_HASHER))
-    }
-
     /// Drop the world and check the ledger / allocator (C06).
     pub fn finish(self) -> VResult<()> {
         let leaky = self.leaky;
